@@ -420,6 +420,14 @@ def _classify_value(eng, fd, pl, bi, line, depth, payload=False, _def=None):
     if kind == 'assign':
         rv = x['rv']
         if rv['k'] == 'binop' and rv['op'] in CMP_BINOPS:
+            # `cond == false` / `cond != true` is `!cond`, `cond == true` / `cond != false` is `cond`: the condition itself is what is tested
+            if rv['op'] in ('Eq', 'Ne') and depth < 12:
+                for c_, v_ in ((rv['a'], rv['b']), (rv['b'], rv['a'])):
+                    if c_['k'] == 'const' and c_.get('ty') == 'bool' and c_.get('int') in ('0', '1') and v_['k'] in ('copy', 'move'):
+                        g = _classify_value(eng, fd, v_['pl'], bi, line, depth + 1)
+                        if (rv['op'] == 'Eq') == (c_['int'] == '0'):
+                            g.negated = not g.negated
+                        return g
             consts = [o.get('int', o.get('disp')) for o in (rv['a'], rv['b']) if o['k'] == 'const']
             return Gate('cmp', rv['op'], [fd.read_op(rv['a']), fd.read_op(rv['b'])], body.path, bi, x.get('line', line),
                         const_ops=consts)
@@ -809,8 +817,10 @@ class GateAnalysis:
         """the body of `<X as Trait>::method` for the one type argument X of the call that implements the (local) trait"""
         trait, meth = tcall
         hits = []
+        ren = getattr(self.eng.prog, 'renamed', {})
         for x in targs or []:
-            p = '<%s as %s>::%s' % (x, trait, meth)
+            p = '<%s as %s>' % (x, trait)
+            p = ren.get(p, p) + '::' + meth          # (impl bodies are filed under their module: mir.Program)
             if p in self.eng.prog.bodies:
                 hits.append(p)
         return hits[0] if len(hits) == 1 else None
@@ -945,6 +955,8 @@ class GateAnalysis:
                     # `opt.ok_or(e)` / `res.map_err(f)` returned as it is: success is decided by what produced `opt`
                     g = _classify_value(self.eng, fd, extra['args'][0]['pl'], bi, extra.get('line'), 0)
                     g.dom = True
+                    if fd.body.local_ty(0) == 'bool' and g.truth is None:
+                        g.truth = (not want) if g.negated else want      # `x.is_identity().into()` handed back as the verdict
                     for g2 in self._flatten(g):
                         if g2.kind == 'deleg':
                             delegs.append(g2)
@@ -971,6 +983,8 @@ class GateAnalysis:
                         gt = Gate('call', extra.get('callee') or '?', [fd.read_op(a) for a in extra['args']],
                                   path, bi, extra.get('line'), callee=extra.get('callee'), args=extra['args'])
                         gt.dom = True
+                        if fd.body.local_ty(0) == 'bool':
+                            gt.truth = want       # `lhs == rhs` handed back as the verdict: the comparison came out the way the verdict did
                         direct.append(gt)
             elif kind in ('boolvar', 'boolret'):
                 if kind == 'boolret':
